@@ -52,6 +52,16 @@ CLAIMED.update({
     ),
 })
 
+CLAIMED.update({
+    "C16": (
+        "closed-form / must-check analysis of the driver on FoIR, who-may-call inventory of file APIs, cursor state-machine analysis of every hand-written loop, belief rules on guarded unfolding",
+        "Termination in general is NOT decided. Decided for all inputs and faults: I/O results are tested and failures reach a diagnostic; the single write receives the complete translation; one recover/exit site with non-zero status; "
+        "each of the 38 hand-written loops exits at end of input and makes progress (4 in a manual table with reasons); unfolding of named/cyclic data is guarded (2 known findings: self-referential records overflow the stack).",
+        "Assumes run-time panics inside the deferred region become diagnostics; the parser's token-driven recursion, ParseList callback progress, the resolver fixpoint, stack depth and memory are not decided.",
+        "DESIGN.md §3 C16",
+    ),
+})
+
 NOT_APPLICABLE = {
 }
 
